@@ -130,6 +130,11 @@ def mapContains (k : List Value) (m : List (List Value × List Cell)) : Bool :=
 /-- names in an expression that the table lacks -/
 def missingColumns (t : Table) (e : Ast) : Bool := e.columns.any fun n => !t.hasColumn n
 
+/-- an optional condition names a column the table lacks -/
+def condMissing (t : Table) : Option Ast → Bool
+  | some e => missingColumns t e
+  | none => false
+
 /-- `Value::into_storable` -/
 def storable : Value → Value
   | .str [] => .null
@@ -148,6 +153,34 @@ def createCells : Pool → List Value → List Cell → Res (Pool × List Cell)
     let (p', c) ← Cell.create p v
     createCells p' vs (c :: acc)
 
+abbrev RowMap := List (List Value × List Cell)
+
+/-- existing rows into the key-sorted map; `none` = two stored rows share a key -/
+def loadMap (p : Pool) (keyIdx : List Nat) : List (List Cell) → RowMap → Option RowMap
+  | [], m => some m
+  | r :: rs, m =>
+    match mapInsert (keyOf keyIdx (rowValues p r)) r m with
+    | some m' => loadMap p keyIdx rs m'
+    | none => none
+
+/-- new keys against the table (`AlreadyExists`) and against each other (`InvalidInput`) -/
+def checkNew (keyIdx : List Nat) (m : RowMap) : List (List Value) → List (List Value) → Option ErrKind
+  | [], _ => none
+  | r :: rs, seen =>
+    let k := keyOf keyIdx r
+    if mapContains k m then some .alreadyExists
+    else if seen.contains k then some .invalidInput
+    else checkNew keyIdx m rs (k :: seen)
+
+/-- intern the new rows and put them into the map -/
+def addRows (keyIdx : List Nat) : Pool → List (List Value) → RowMap → Res (Pool × RowMap)
+  | p, [], m => pure (p, m)
+  | p, r :: rs, m => do
+    let (p', cells) ← createCells p r []
+    match mapInsert (keyOf keyIdx r) cells m with
+    | some m' => addRows keyIdx p' rs m'
+    | none => .panic "unreachable: duplicate key after check"
+
 /-- `Insert::exec` -/
 def insertExec (s : Pkg) (tname : List Char) (newRows : List (List Value)) : Pkg × Res Unit :=
   match s.findTable tname with
@@ -163,38 +196,14 @@ def insertExec (s : Pkg) (tname : List Char) (newRows : List (List Value)) : Pkg
     | .err k => (s, .err k)
     | .panic w => (s, .panic w)
     | .ok existing =>
-      -- existing rows into the map; duplicates are malformed data
-      let rec load : List (List Cell) → List (List Value × List Cell) →
-          Option (List (List Value × List Cell))
-        | [], m => some m
-        | r :: rs, m =>
-          match mapInsert (keyOf keyIdx (rowValues s.pool r)) r m with
-          | some m' => load rs m'
-          | none => none
-      match load existing [] with
+      match loadMap s.pool keyIdx existing [] with
       | none => (s, .err .invalidData)
       | some m =>
-        -- new keys against the table and against each other
-        let rec check : List (List Value) → List (List Value) → Option ErrKind
-          | [], _ => none
-          | r :: rs, seen =>
-            let k := keyOf keyIdx r
-            if mapContains k m then some .alreadyExists
-            else if seen.contains k then some .invalidInput
-            else check rs (k :: seen)
-        match check newRows [] with
+        match checkNew keyIdx m newRows [] with
         | some k => (s, .err k)
         | none =>
           if m.length + newRows.length > Gen.maxTableRows then (s, .err .invalidInput) else
-          let rec add : Pool → List (List Value) → List (List Value × List Cell) →
-              Res (Pool × List (List Value × List Cell))
-            | p, [], m => pure (p, m)
-            | p, r :: rs, m => do
-              let (p', cells) ← createCells p r []
-              match mapInsert (keyOf keyIdx r) cells m with
-              | some m' => add p' rs m'
-              | none => .panic "unreachable: duplicate key after check"
-          match add s.pool newRows m with
+          match addRows keyIdx s.pool newRows m with
           | .err k => (s, .err k)
           | .panic w => (s, .panic w)
           | .ok (pool', m') => storeRows { s with pool := pool' } t (m'.map (·.2))
@@ -206,37 +215,82 @@ def evalCond (t : Table) (p : Pool) (cond : Option Ast) (cells : List Cell) : Re
     let v ← e.eval (mkRow t (rowValues p cells))
     pure v.toBool
 
+/-- the `retain` loop of `Delete::exec`: matching rows release their strings -/
+def deleteGo (t : Table) (cond : Option Ast) : Pool → List (List Cell) → List (List Cell) →
+    Res (Pool × List (List Cell))
+  | p, [], acc => pure (p, acc.reverse)
+  | p, r :: rs, acc => do
+    let del ← evalCond t p cond r
+    if del then deleteGo t cond (r.foldl Cell.remove p) rs acc else deleteGo t cond p rs (r :: acc)
+
 /-- `Delete::exec` -/
 def deleteExec (s : Pkg) (tname : List Char) (cond : Option Ast) : Pkg × Res Unit :=
   match s.findTable tname with
   | none => (s, .err .notFound)
   | some t =>
-    if (match cond with | some e => missingColumns t e | none => false) then (s, .err .invalidInput) else
+    if condMissing t cond then (s, .err .invalidInput) else
     match s.loadRows t with
     | .err k => (s, .err k)
     | .panic w => (s, .panic w)
     | .ok rows =>
-      let rec go : Pool → List (List Cell) → List (List Cell) → Res (Pool × List (List Cell))
-        | p, [], acc => pure (p, acc.reverse)
-        | p, r :: rs, acc => do
-          let del ← evalCond t p cond r
-          if del then go (r.foldl Cell.remove p) rs acc else go p rs (r :: acc)
-      match go s.pool rows [] with
+      match deleteGo t cond s.pool rows [] with
       | .err k => (s, .err k)
       | .panic w => (s, .panic w)
       | .ok (pool', kept) => storeRows { s with pool := pool' } t kept
 
 def setAt (l : List α) (i : Nat) (v : α) : List α := l.set i v
 
-/-- insertion sort of row indices by key (stable `sort_by`) -/
+/-- insert row index `x` into a key-sorted list of row indices -/
+def insByKey (keys : List (List Value)) (x : Nat) : List Nat → List Nat
+  | [] => [x]
+  | y :: ys =>
+    if keyLt (keys.getD x []) (keys.getD y []) then x :: y :: ys else y :: insByKey keys x ys
+
+/-- `order.sort_by(|a, b| keys[a].cmp(&keys[b]))` as an insertion sort (rows with equal keys
+end up adjacent, which is all the duplicate check needs) -/
 def sortByKey (keys : List (List Value)) (order : List Nat) : List Nat :=
-  let ins (x : Nat) (sorted : List Nat) : List Nat :=
-    let kx := keys.getD x []
-    let rec go : List Nat → List Nat
-      | [] => [x]
-      | y :: ys => if keyLt kx (keys.getD y []) then x :: y :: ys else y :: go ys
-    go sorted
-  order.reverse.foldl (fun acc x => ins x acc) []
+  order.reverse.foldl (fun acc x => insByKey keys x acc) []
+
+/-- validate the assignments of an UPDATE in order -/
+def validateUpdates (t : Table) : List (List Char × Value) → Option ErrKind
+  | [] => none
+  | (n, v) :: rest =>
+    match t.indexOfColumn n with
+    | none => some .invalidInput
+    | some i =>
+      match t.columns[i]? with
+      | none => some .invalidInput
+      | some c => if c.isValidValue v then validateUpdates t rest else some .invalidInput
+
+/-- new values of every row and whether it matched the condition -/
+def updPlan (t : Table) (p : Pool) (cond : Option Ast) (ups : List (Nat × Value)) :
+    List (List Cell) → List (List Value × Bool) → Res (List (List Value × Bool))
+  | [], acc => pure acc.reverse
+  | r :: rs, acc => do
+    let m ← evalCond t p cond r
+    let vals := rowValues p r
+    let vals' := if m then ups.foldl (fun vs (i, v) => vs.set i v) vals else vals
+    updPlan t p cond ups rs ((vals', m) :: acc)
+
+/-- release the old cell, intern the new value, for each assignment -/
+def cellsUpd : Pool → List Cell → List (Nat × Value) → Res (Pool × List Cell)
+  | p, cells, [] => pure (p, cells)
+  | p, cells, (i, v) :: us => do
+    let p1 := Cell.remove p (cells.getD i .null)
+    let (p2, c) ← Cell.create p1 v
+    cellsUpd p2 (cells.set i c) us
+
+def updApply (ups : List (Nat × Value)) : Pool → List (List Cell) → List (List Value × Bool) →
+    List (List Cell) → Res (Pool × List (List Cell))
+  | p, [], _, acc => pure (p, acc.reverse)
+  | p, r :: rs, pl, acc =>
+    match pl with
+    | [] => pure (p, (r :: acc).reverse ++ rs)
+    | (_, m) :: pl' =>
+      if m then do
+        let (p', cells') ← cellsUpd p r ups
+        updApply ups p' rs pl' (cells' :: acc)
+      else updApply ups p rs pl' (r :: acc)
 
 /-- `Update::exec` -/
 def updateExec (s : Pkg) (tname : List Char) (updates : List (List Char × Value)) (cond : Option Ast) :
@@ -244,35 +298,17 @@ def updateExec (s : Pkg) (tname : List Char) (updates : List (List Char × Value
   match s.findTable tname with
   | none => (s, .err .notFound)
   | some t =>
-    -- validate the assignments, in order
-    let rec val : List (List Char × Value) → Option ErrKind
-      | [] => none
-      | (n, v) :: rest =>
-        match t.indexOfColumn n with
-        | none => some .invalidInput
-        | some i =>
-          match t.columns[i]? with
-          | none => some .invalidInput
-          | some c => if c.isValidValue v then val rest else some .invalidInput
-    match val updates with
+    match validateUpdates t updates with
     | some k => (s, .err k)
     | none =>
-    if (match cond with | some e => missingColumns t e | none => false) then (s, .err .invalidInput) else
+    if condMissing t cond then (s, .err .invalidInput) else
     match s.loadRows t with
     | .err k => (s, .err k)
     | .panic w => (s, .panic w)
     | .ok rows =>
       let ups : List (Nat × Value) := updates.filterMap fun (n, v) =>
         (t.indexOfColumn n).map fun i => (i, storable v)
-      -- new values of every row, and whether it matched
-      let rec plan : List (List Cell) → List (List Value × Bool) → Res (List (List Value × Bool))
-        | [], acc => pure acc.reverse
-        | r :: rs, acc => do
-          let m ← evalCond t s.pool cond r
-          let vals := rowValues s.pool r
-          let vals' := if m then ups.foldl (fun vs (i, v) => vs.set i v) vals else vals
-          plan rs ((vals', m) :: acc)
-      match plan rows [] with
+      match updPlan t s.pool cond ups rows [] with
       | .err k => (s, .err k)
       | .panic w => (s, .panic w)
       | .ok planned =>
@@ -285,25 +321,7 @@ def updateExec (s : Pkg) (tname : List Char) (updates : List (List Char × Value
           let kb := keys.getD b []
           !keyLt ka kb && !keyLt kb ka
         if dup then (s, .err .alreadyExists) else
-        -- apply
-        let rec apply : Pool → List (List Cell) → List (List Value × Bool) → List (List Cell) →
-            Res (Pool × List (List Cell))
-          | p, [], _, acc => pure (p, acc.reverse)
-          | p, r :: rs, pl, acc =>
-            match pl with
-            | [] => pure (p, (r :: acc).reverse ++ rs)
-            | (_, m) :: pl' =>
-              if m then do
-                let rec cellsUpd : Pool → List Cell → List (Nat × Value) → Res (Pool × List Cell)
-                  | p, cells, [] => pure (p, cells)
-                  | p, cells, (i, v) :: us => do
-                    let p1 := Cell.remove p (cells.getD i .null)
-                    let (p2, c) ← Cell.create p1 v
-                    cellsUpd p2 (cells.set i c) us
-                let (p', cells') ← cellsUpd p r ups
-                apply p' rs pl' (cells' :: acc)
-              else apply p rs pl' (r :: acc)
-        match apply s.pool rows planned [] with
+        match updApply ups s.pool rows planned [] with
         | .err k => (s, .err k)
         | .panic w => (s, .panic w)
         | .ok (pool', rows') =>
@@ -392,7 +410,7 @@ def selectExec (s : Pkg) : Select → Res (Table × List (List Cell))
     let (t, rows) ← joinExec s from_
     -- projection names first, then the condition
     let indices ← projIndices t columns []
-    if (match cond with | some e => missingColumns t e | none => false) then .err .invalidInput else
+    if condMissing t cond then .err .invalidInput else
     let rows' ← filterRows t s.pool cond rows []
     if indices.isEmpty then pure (t, rows')
     else
